@@ -11,6 +11,9 @@ def run(prop, tier, seed):
     if prop == 'C11':
         from . import gen_range
         return gen_range.run(prop, tier, seed)
+    if prop == 'C18':
+        from . import gen_print
+        return gen_print.run(prop, tier, seed)
     if prop == 'C12':
         from . import thr
         return thr.run(prop, tier, seed)
